@@ -46,6 +46,7 @@ type RunCfg struct {
 	TracePfx   []string           `json:"tracepfx"`
 }
 
+var theReaderType types.Type = types.NewPointer(types.NewNamed(types.NewTypeName(0, nil, "symxRandReader", nil), types.NewStruct(nil, nil), nil))
 var theHashType types.Type = types.NewPointer(types.NewNamed(types.NewTypeName(0, nil, "symxSHA256", nil), types.NewStruct(nil, nil), nil))
 
 func (x *Exec) call(st *State, f *Frame, in *ssa.Call) {
@@ -63,6 +64,32 @@ func (x *Exec) call(st *State, f *Frame, in *ssa.Call) {
 		if p, ok := iv.v.(P); ok {
 			if _, isHash := st.hash[p.obj]; isHash {
 				x.hashMethod(st, f, in, p.obj, c.Method.Name(), args)
+				return
+			}
+			if iv.t == theReaderType && c.Method.Name() == "Read" {
+				// io.Reader contract: 0 <= n <= len(p) bytes delivered (n from the candidate list), or an error
+				buf := args[0].(S)
+				cands := x.cfg.Concretize["readn"]
+				if cands == nil {
+					cands = []int64{int64(buf.ln), 0, 1, int64(buf.ln) / 2, int64(buf.ln) - 1}
+				}
+				k := st.randCnt
+				ch := x.choose(st, len(cands)+1)
+				st.randCnt++
+				if ch == len(cands) {
+					o := x.newObj(st, "err:io-read-failure", "Fresh", "error", nil)
+					x.ret(f, in, T{W{x.d.ConstI(64, 0)}, I{t: types.NewPointer(x.lookupType("errors", "errorString")), v: P{obj: o.id}}})
+					return
+				}
+				n := int(cands[ch])
+				if n > buf.ln {
+					n = buf.ln
+				}
+				for i := 0; i < n; i++ {
+					x.writeSlot(st, buf.obj, buf.off+i, W{x.d.Var(fmt.Sprintf("rand%d_%d", k, i), 8)})
+				}
+				st.pc = append(st.pc, x.d.Cmp("eq", x.d.Var(fmt.Sprintf("delivered%d", k), 64), x.d.ConstI(64, int64(n))))
+				x.ret(f, in, T{W{x.d.ConstI(64, int64(n))}, I{}})
 				return
 			}
 		}
@@ -97,6 +124,12 @@ func (x *Exec) call(st *State, f *Frame, in *ssa.Call) {
 	case string:
 		if fn == "symx.hashctor" {
 			x.ret(f, in, x.newHash(st))
+			return
+		}
+		if fn == "symx.otherctor" {
+			hv := x.newHash(st)
+			st.hash[hv.(I).v.(P).obj].alt = true
+			x.ret(f, in, hv)
 			return
 		}
 		x.fail("call of marker function %s", fn)
@@ -619,7 +652,11 @@ func (x *Exec) hashMethod(st *State, f *Frame, in *ssa.Call, obj int, m string, 
 		x.ret(f, in, T{W{d.ConstI(64, int64(s.ln))}, I{}})
 	case "Sum":
 		b := args[0].(S)
-		dig := d.mk("sha256", 256, "", 0, len(h.data), nil, h.data...)
+		opn := "sha256"
+		if h.alt {
+			opn = "sha256alt" // a different function registered by another package
+		}
+		dig := d.mk(opn, 256, "", 0, len(h.data), nil, h.data...)
 		slots := []Val{}
 		if b.ln > 0 {
 			slots = append(slots, x.obj(st, b.obj).slots[b.off:b.off+b.ln]...)
